@@ -192,7 +192,7 @@ def run_contract_slice(ctx, specs, n, ops):
                 continue
             A = np.concatenate([group_corpus(spec)[:8], spec.rand(rng, n)])
             B = np.concatenate([group_corpus(spec)[:8][::-1], spec.rand(rng, n)])
-            X = np.concatenate([algebra_corpus(spec)[:8], spec.alg_rand(rng, n, hi=PI - 0.1, thi=10.0) if not isinstance(spec, (SO3Spec, SO2Spec)) else spec.alg_rand(rng, n, hi=PI - 0.1)])
+            X = np.concatenate([algebra_corpus(spec)[:8], spec.alg_rand(rng, n, hi=PI - 0.1, thi=10.0)])
             for k in range(len(A)):
                 try:
                     a = G.elem(ca.DM(A[k]))
@@ -222,3 +222,42 @@ def run_contract_slice(ctx, specs, n, ops):
         ctx.tally("contract:" + op, st["evaluated"])
     for op in ops:
         ctx.require("contract_evaluated:" + op, "(icontract post-condition never evaluated)")
+
+
+def switch_brackets(ev, lo, hi, max_preds=24):
+    """cell-directed inputs: for every comparison node of the expression whose truth value differs
+    between the input tuples lo and hi, bisect along the segment down to adjacent doubles and
+    return the points on both sides of the switch (list of input tuples)."""
+    from ..caseval import bisect_predicate
+
+    lo = [np.asarray(x, dtype=float) for x in lo]
+    hi = [np.asarray(x, dtype=float) for x in hi]
+    _, pl = ev(*[x[None, :] for x in lo])
+    _, ph = ev(*[x[None, :] for x in hi])
+    out = []
+    diff = np.nonzero(pl[0] != ph[0])[0][:max_preds]
+    for k in diff:
+        a, b = bisect_predicate(ev, lo, hi, int(k))
+        out.append(a)
+        out.append(b)
+    return out
+
+
+def algebra_switch_points(ctx, spec, ev, rng, rays=3):
+    """algebra vectors on both sides of every switch of ev (single algebra input), on random rays"""
+    pts = []
+    for _ in range(rays):
+        d = spec.alg_rand(rng, 1, hi=1.0)[0]
+        ang = spec.alg_angle(d[None, :])[0]
+        if ang == 0:
+            continue
+        d = d / ang
+        # keep translations O(1): scale only makes sense for the rotation part, so scale whole vector
+        for lo_s, hi_s in ((1e-5, 0.5), (0.5, 3.0)):
+            try:
+                for p in switch_brackets(ev, [d * lo_s], [d * hi_s]):
+                    pts.append(p[0])
+            except Exception:
+                pass
+    ctx.count("switch_bracket_points", len(pts))
+    return np.array(pts) if pts else np.zeros((0, spec.na))
